@@ -794,6 +794,7 @@ func runC12(c *gen.Ctx) error {
 	// any length read by the real runner (c12overlap.go)
 	c12OverlapGen(c)
 	c12StreamGen(c)
+	c12ClientFbGen(c)
 	// (iii) the real reference server as createServer builds it (c12real.go)
 	c12RealGen(c)
 	c12RealOverlapGen(c)
